@@ -36,7 +36,7 @@ type Call struct {
 type Fault func(c *Call) *FaultAction
 
 type FaultAction struct {
-	Kind string      // "transport" "status" "notjson" "notarray" "short" "long" "errors" "nodata" "nulldata" "replace"
+	Kind string      // "eof" "transport" "status" "notjson" "notarray" "short" "long" "errors" "nodata" "nulldata" "replace"
 	Data interface{} // for "replace": the data object to answer with; for "errors": the error list
 }
 
@@ -270,6 +270,10 @@ func (s *Service) serve(contentType string, body []byte) (*http.Response, error)
 		switch action.Kind {
 		case "transport":
 			return nil, fmt.Errorf("injected transport error")
+		case "eof":
+			// the service received and executed the batch (it is in the call log); the connection broke
+			// before any byte of the answer: what an http.Client reports as EOF
+			return nil, io.EOF
 		case "status":
 			st := 500
 			if n, ok := action.Data.(int); ok {
